@@ -187,8 +187,7 @@ def Inv1 (g : Game P M) (p : P) (α0 : Int) (a : PvAcc M) (s : Eng M) : Prop :=
 def Cov1 (g : Game P M) (a : PvAcc M) (c : P) : Prop := -(g.eval c) ≤ a.α
 
 theorem pvBody1_ok [DecidableEq M] {g : Game P M} (hb : EvalBounded g) {o : Oracle M} {cpv : PvFn P M} {czw : ZwFn P M}
-    (hnc : NoCancel o) (hp : LeafPv g cpv) (hz : LeafZw g czw) (p : P) (ply : Nat) (α0 : Int)
-    (hα0 : α0 ≤ Facts.maxEval) :
+    (hnc : NoCancel o) (hp : LeafPv g cpv) (hz : LeafZw g czw) (p : P) (ply : Nat) (α0 : Int) :
     BodyOK g p (pvBody g o cpv czw ply 1 (Facts.maxEval + 1) false)
       (Inv1 g p α0) (Cov1 g) (fun _ _ => False) (fun _ _ => False) := by
   intro m c a s hap hinv
@@ -324,7 +323,7 @@ theorem pvNode1 [DecidableEq M] {g : Game P M} (hg : GameOK g) (hb : EvalBounded
     apply Sat.bind
     rw [hdd]
     have hmm : Facts.minEval - 1 ≤ Facts.maxEval := by decide
-    have hbody := pvBody1_ok (g := g) hb hnc hp hz p ply (Facts.minEval - 1) hmm
+    have hbody := pvBody1_ok (g := g) hb hnc hp hz p ply (Facts.minEval - 1)
     have hinv0 : Inv1 g p (Facts.minEval - 1) (⟨Facts.minEval - 1, best, false, 0, []⟩ : PvAcc M) s1 :=
       ⟨hs1, hmm, Or.inl ⟨rfl, rfl⟩⟩
     refine (iterate_rule hbody cfg o ⟨ply, 1, te, pv⟩ (hg.gen p) hord
@@ -439,7 +438,6 @@ theorem analyze_depth1 [DecidableEq M] {g : Game P M} (hg : GameOK g) (he : Eval
           rcases iterDone_cases cfg 0 1 ⟨[], 0, { depth := 0 }, 0, 0⟩ (m :: rest) nv
             { s1 with loads := s1.loads + 1 } with h | h
           · rw [h]
-            simp only [analyzeLoop]
             exact Sat.ok ⟨ht, (fun h' => by rw [hov'] at h'; cases h'), (fun _ => ⟨hv, m, rest, c, rfl, hap, hvc⟩)⟩
           · rw [h]
             exact Sat.ok ⟨ht, (fun h' => by rw [hov'] at h'; cases h'), (fun _ => ⟨hv, m, rest, c, rfl, hap, hvc⟩)⟩
@@ -468,7 +466,7 @@ theorem runCalls_t1 [DecidableEq M] {g : Game P M} (hg : GameOK g) (he : EvalOK 
       | ok y => exact Sat.ok (hrest y hr2)
 
 /-- `negamax 1` is decisive for the mover exactly when some legal move ends the game in the mover's favour -/
-theorem negamax1_win_iff {g : Game P M} (hg : GameOK g) (he : EvalOK g) (p : P) (hov : g.over p = false) :
+theorem negamax1_win_iff {g : Game P M} (he : EvalOK g) (p : P) (hov : g.over p = false) :
     negamax g 1 p > Facts.winThreshold ↔
       ∃ m c, m ∈ g.allMoves p ∧ g.apply p m = .ok c ∧ g.over c = true ∧ g.eval c < -Facts.winThreshold := by
   rw [negamax_succ g 0 p hov]
